@@ -456,3 +456,70 @@ def check(repo: Repo, run: Run) -> None:
         run.ob("C11.D2", f"DurationType.{name}", ok, f"{name} = `{inner}`; definition: the whole duration expressed in that unit, truncated", ct.loc(fn))
     st = dm.get("__str__")
     run.ob("C11.D2", "DurationType.__str__", st is not None and "int(self.total_seconds())" in ast.unparse(st) and "s'" in ast.unparse(st).replace('"', "'"), "string(duration) is whole seconds followed by 's'", ct.loc(st) if st else str(ct.path))
+    check_exact_from_native(repo, run)
+
+
+def check_exact_from_native(repo: Repo, run: Run) -> None:
+    """D3: the results of timestamp/duration arithmetic are native timedelta/datetime objects re-wrapped by the
+    constructors; the re-wrap must copy the integer fields.  A detour through float seconds (total_seconds(),
+    timestamp(), true division) has 53 bits: beyond ~285 years in microseconds the last digits are lost and
+    t2 + (t1 - t2) != t1.  (The text arm legitimately goes through float: that is parsing, not arithmetic.)"""
+    from ..core.paths import flat_conds, paths_of
+
+    ct = repo.mod("celtypes")
+    FLOATY = ("total_seconds", "timestamp()", "float(", " / ", "fsum(", "1e", "10 ** -")
+    n = 0
+    for cname, native, fields in (("DurationType", "timedelta", {"days", "seconds", "microseconds"}),
+                                  ("TimestampType", "datetime", {"year", "month", "day", "hour", "minute", "second", "microsecond", "tzinfo", "fold"})):
+        cls = ct.cls(cname)
+        fn = class_methods(cls).get("__new__")
+        if fn is None or len(fn.args.args) < 2:
+            raise AnchorMissing(f"{cname}.__new__")
+        src = fn.args.args[1].arg
+        try:
+            all_paths = paths_of(ct, cls, fn)
+        except OverflowError:
+            run.inconclusive("C11.D3", f"{cname}.__new__", "too many paths")
+            continue
+        arm = []
+        for p in all_paths:
+            if p.kind != "return" or p.value is None:
+                continue
+            conds = flat_conds(p.conds)
+            in_arm = any(pol and isinstance(t, ast.Call) and dotted(t.func) == "isinstance" and len(t.args) == 2 and ast.unparse(strip_cast(t.args[0])) == src
+                         and ast.unparse(t.args[1]).endswith(native) for t, pol in conds)
+            if in_arm:
+                arm.append(p)
+        if not arm:
+            run.inconclusive("C11.D3", f"{cname}.__new__[{native}]", f"no returning path guarded by isinstance({src}, {native}) found")
+            continue
+        n += 1
+        verdict: Optional[bool] = True
+        why = f"the {native} arm copies the integer fields of the source"
+        loc = ct.loc(fn)
+        for p in arm:
+            v = strip_cast(p.value)
+            if not isinstance(v, ast.Call):
+                verdict, why = None, f"`{ast.unparse(v)[:60]}` is not a constructor call"
+                continue
+            operands = [a for a in v.args[1:]] + [k.value for k in v.keywords if k.arg is not None]
+            for a in operands:
+                txt = ast.unparse(a)
+                if any(f in txt for f in FLOATY):
+                    verdict = False
+                    why = (f"the {native} arm builds the value from `{txt[:60]}`: a float has 53 bits, so the microseconds of a large {native} are rounded "
+                           f"and the result of timestamp/duration arithmetic is no longer exact (t2 + (t1 - t2) != t1)")
+                    loc = ct.loc(p.node) if p.node is not None else loc
+                    break
+                reads = [x for x in ast.walk(a) if isinstance(x, ast.Attribute) and ast.unparse(x.value) == src]
+                calls = [x for x in ast.walk(a) if isinstance(x, ast.Call) and dotted(x.func) not in ("int", "abs")]
+                exact = txt == src or (all(x.attr in fields for x in reads) and not calls)
+                if not exact and verdict is True:
+                    verdict, why = None, f"`{txt[:60]}` is neither a field of the source nor a float detour"
+            if verdict is False:
+                break
+        if verdict is None:
+            run.inconclusive("C11.D3", f"{cname}.__new__[{native}]", why)
+        else:
+            run.ob("C11.D3", f"{cname}.__new__[{native}]|exact", verdict, f"{cname}.__new__: {why}", loc)
+    run.floor("C11.D3", n, 2)
